@@ -1385,7 +1385,27 @@ fn check_inactivity(obs: &Obs, lanes: &[LaneInfo], views: &[SView], out: &mut Ca
         (Some(_), None) => true,
         _ => false,
     };
-    if let (true, Some(f_t), Some(f_v)) = (by_itself, obs.agent_finished, obs.finished_v) {
+    // The instant at which the stop began (the runtime closes the lanes' channels and completes the remotes'
+    // promises; `run_agent` itself may return later, e.g. when a lane of the harness is not reading).
+    let stop_began: Option<(u64, tokio::time::Instant)> = {
+        let mut c: Vec<(u64, tokio::time::Instant)> = vec![];
+        for li in lanes {
+            for r in li.rec.received.iter().filter(|r| matches!(r.what, Received::Closed)) {
+                c.push((r.t, r.v));
+            }
+        }
+        for (s, v) in obs.sessions.iter().zip(views.iter()) {
+            if let (Some((t, Some(DisconnectionReason::AgentTimedOut | DisconnectionReason::AgentStoppedExternally))), Some(cv)) = (v.completion, *s.completion_v.lock()) {
+                c.push((t, cv));
+            }
+        }
+        if let (Some(f_t), Some(f_v)) = (obs.agent_finished, obs.finished_v) {
+            c.push((f_t, f_v));
+        }
+        c.into_iter().min_by_key(|x| x.1)
+    };
+    let (f_t_all, f_v_all) = (obs.agent_finished, stop_began.map(|x| x.1));
+    if let (true, Some(f_t), Some(f_v)) = (by_itself, f_t_all, f_v_all) {
         out.count("c17-agent-stopped-by-itself");
         // Work of the write task: every frame a lane handed over before the end.
         'lanes: for li in lanes {
@@ -1426,6 +1446,43 @@ fn check_inactivity(obs: &Obs, lanes: &[LaneInfo], views: &[SView], out: &mut Ca
                         );
                         break 'cmds;
                     }
+                }
+            }
+        }
+    }
+    // A command that a remote had completely written at an earlier virtual instant than the stop either
+    // reached its lane or kept the read task busy delivering it (a lane that does not take requests): a read
+    // task in the middle of a delivery has withdrawn its vote, so the runtime cannot have stopped.
+    // (Vote-based stops only: with no remote registered the write task ends the agent on its own timeout,
+    // whatever the read task is doing with a late frame of a remote that has been removed.)
+    let unanimous_stop = views.iter().any(|v| matches!(v.completion, Some((_, Some(DisconnectionReason::AgentTimedOut)))));
+    if let (true, true, Some(f_t), Some(f_v)) = (by_itself, unanimous_stop, f_t_all, f_v_all) {
+        let v_upper = |t: u64| obs.step_times.iter().find(|(st, _)| *st > t).map(|x| x.1);
+        'flight: for v in views {
+            for r in v.reqs.iter().filter(|r| r.kind == ReqKind::Command) {
+                let Some(t1) = r.t1 else { continue };
+                let Some(li) = lanes.iter().find(|l| l.spec.name == r.lane) else { continue };
+                if li.fail_t.is_some() || (li.spec.kind == LK::Map && !matches!(peel(&r.body), Some(Peeled::Update(_, _)) | Some(Peeled::Remove(_)) | Some(Peeled::Clear))) {
+                    continue;
+                }
+                let Some(w_v) = v_upper(t1) else { continue };
+                if !(t1 < f_t && w_v < f_v) {
+                    continue;
+                }
+                let delivered = li.rec.received.iter().any(|x| match &x.what {
+                    Received::Command(b) => *b == r.body,
+                    Received::MapCommand(_) => li.spec.kind == LK::Map,
+                    _ => false,
+                });
+                out.count("c17-commands-written-before-the-stop");
+                if !delivered {
+                    out.violation(
+                        "C17",
+                        "runtime/stopped-with-a-command-in-flight",
+                        "the agent runtime stopped for inactivity although a command that a remote had completely written at an earlier instant had not been delivered to its lane (the read task was in the middle of delivering it, or had not looked at it)",
+                        json!({"lane": r.lane, "body": show(&r.body), "written_at_ticket": t1, "finished_at_ticket": f_t, "timeout_ms": t_ms}),
+                    );
+                    break 'flight;
                 }
             }
         }
